@@ -25,7 +25,7 @@ from . import follow, features
 
 LEVEL = "model_checking"
 RULE = (
-    "BFS to closure on the sync engine of every TREE(N) universal machine (those holding a parallel state also with keys renamed so that document order is the reverse of id order), irregular larger trees, FOLLOW machine and FEATURE machine "
+    "BFS to closure on the sync engine of every TREE(N) universal machine (those holding a parallel state also with keys renamed so that document order is the reverse of id order), irregular larger trees, nested-parallel completion skeletons with an onDone on every eligible state, FOLLOW machine and FEATURE machine "
     "(assign/raise/choose/pure/enqueueActions/guards/output/sync services; self-enqueueing pure / choose / enqueueActions expansion of natural depth 3 and unbounded - cut by the expansion-depth guard); every step is replayed on the "
     "async engine and through initial_transition/transition and compared (configuration, context, status, "
     "output, ordered action list with triggering event type+payload); distinct_nontrivial = distinct canonical "
@@ -51,6 +51,10 @@ def units(tier: str) -> List[Any]:
     # the same machines with keys named so that document order is the reverse of id order (exit / entry order across
     # regions must follow the document, identically on every engine): every tree holding a parallel state
     us += [("tree-rev", t) for t in list(F.trees_upto(n)) + F.par_skeletons(tier) if "P" in F.tree_kinds(t)]
+    # completion through nested parallel / compound states with an onDone on every eligible state (the done.state
+    # bubbling code exists once per engine)
+    deep = ("C", (("A", ()), ("C", (("A", ()), ("F", ())))))
+    us += [("done", t) for t in F.done_skeletons("thorough") if tier != "quick" or deep in t[1][0][1][0][1]]
     us += [("follow", spec) for spec in follow.specs(3 if tier == "quick" else 4)]
     us += [("feature", name) for name in features.names()]
     from . import c18
@@ -273,6 +277,17 @@ def run_unit(unit):
         cfg, nodes, events = F.universal_config(payload, shared=True, naming=naming)
         return explore(cfg, nodes, events, label=F.tree_str(payload) + ("" if kind == "tree" else " (keys z,y,x,...)"),
                        replay=dict(kind=kind, tree=payload), shape=kind)
+    if kind == "done":
+        from . import c10
+
+        cfg, nodes, events, decorated = c10.build_cfg((payload, "all", None, False))
+        marks = []
+        for n in nodes:
+            if n.id in decorated:
+                F.cfg_node(cfg, n)["onDone"]["actions"] = [f"mk:od:{n.id}"]
+                marks.append(f"mk:od:{n.id}")
+        return explore(cfg, nodes, events, label=F.tree_str(payload) + "+onDone[all]", replay=dict(kind="done", tree=payload),
+                       shape="done", extra_markers=marks)
     if kind == "follow":
         cfg, nodes, events = follow.build(payload)
         tree, mode, x, y = payload
@@ -294,7 +309,7 @@ def replay(payload):
         for v in r["violations"]:
             print("  ", v["what"][:300])
         return r["violations"]
-    if payload["kind"] in ("tree", "tree-rev"):
+    if payload["kind"] in ("tree", "tree-rev", "done"):
         unit = (payload["kind"], _tuplify(payload["tree"]))
     elif payload["kind"] == "follow":
         unit = ("follow", _tuplify(payload["spec"]))
